@@ -7,6 +7,7 @@ import (
 	"go/token"
 	"go/types"
 	"sort"
+	"strconv"
 	"strings"
 )
 
@@ -39,6 +40,14 @@ var runSpecific = func(name string) bool {
 // constVal returns the integer value of a constant expression.
 func (fi *FuncInfo) constInt(e ast.Expr) (int64, bool) {
 	tv, ok := fi.Info.Types[e]
+	if !ok {
+		// a literal synthesised by a normal form has no recorded type
+		if lit, isLit := e.(*ast.BasicLit); isLit && lit.Kind == token.INT {
+			if v, err := strconv.ParseInt(lit.Value, 0, 64); err == nil {
+				return v, true
+			}
+		}
+	}
 	if !ok || tv.Value == nil || tv.Value.Kind() != constant.Int {
 		return 0, false
 	}
@@ -1131,11 +1140,23 @@ func init() {
 				return true
 			})
 			for _, s := range loop.Body.List {
-				if is, ok := s.(*ast.IfStmt); ok && terminates(is.Body) && is.Init != nil {
-					if as, ok := is.Init.(*ast.AssignStmt); ok {
-						if ix, ok := ast.Unparen(as.Rhs[0]).(*ast.IndexExpr); ok && strings.HasPrefix(types.TypeString(fi.Info.TypeOf(ix.X), nil), "map[*") {
-							visitedGuard = true
-						}
+				// `if _, found := visited[curr]; found {continue}` (the lookup in the init, or in a statement before)
+				if is, ok := s.(*ast.IfStmt); ok && terminates(is.Body) {
+					cs := flatten(is.Cond, false, is)
+					if len(cs) != 1 || cs[0].Neg {
+						continue
+					}
+					var look ast.Expr
+					if d := fi.defOf(cs[0].Expr); d != nil && d.idx == 1 {
+						look = d.rhs
+					} else if d == nil {
+						look = cs[0].Expr
+					}
+					if look == nil {
+						continue
+					}
+					if ix, ok := ast.Unparen(look).(*ast.IndexExpr); ok && strings.HasPrefix(types.TypeString(fi.Info.TypeOf(ix.X), nil), "map[*") {
+						visitedGuard = true
 					}
 				}
 			}
